@@ -36,6 +36,9 @@ pub enum PlanKind {
     SlowMain,
     /// every compression takes longer than 100 ms (the first dozen compressed clusters)
     VerySlowWorkers,
+    /// the producer pauses for seconds: 2.6 s when the second cluster opens, 4.6 s when the fourth
+    /// does (nothing reaches the workers or the writer meanwhile)
+    LongPauses,
 }
 
 #[derive(Serialize, Deserialize, Clone, Debug, PartialEq, Eq)]
@@ -107,6 +110,15 @@ impl Perturb {
             PlanKind::SlowMain => {
                 if site == 0 {
                     1500
+                } else {
+                    0
+                }
+            }
+            PlanKind::LongPauses => {
+                if site == 0 && idx == 1 {
+                    2_600_000
+                } else if site == 0 && idx == 3 {
+                    4_600_000
                 } else {
                     0
                 }
@@ -216,7 +228,7 @@ impl Property for C08 {
     const ID: &'static str = "C08";
 
     fn rule() -> String {
-        "proptest-generated insertion sequences built from runs of tiny contents (4095 fill a cluster, raw with hint No / compressed with hint Yes) and contents larger than half a cluster (one compressed cluster each), giving 3..60 clusters mixing raw and compressed; each sequence is created 4-6 times with different (perturbation plan, visible CPU count) pairs: plans inject seeded delays inside the public Progress callbacks (main thread at cluster opening, compression workers at handle_cluster, writer thread at handle_cluster_written): none / uniform random {0, yield, 100us, 400us, 2ms} / first compressed cluster slowest / writer slower than all workers / workers finish in reverse order / slow main thread; CPU counts 1..15 through sched_setaffinity (=> 1..14 workers, queue limits 2..28, both shorter and longer than the number of queued clusters). Oracle (metamorphic + model): every run terminates, every address returned resolves to its own bytes in a fresh reader, count and check() are right, the independent decoder finds every cluster inside the file and non-overlapping; addresses are identical across runs. Non-trivial = at least two runs of the case wrote their clusters to the file in different orders (observed through handle_cluster_written); distinct by (sequence shape, number of distinct orders). In half of the cases the first content of every segment / cluster is handed over as a file (InputFile), the others from memory (the writer copies the two kinds through different paths), every second one as a sub-range of its file. Segments of one incompressible content (240..256, 65500..65536 bytes: the stored size of its cluster exceeds the plain size) and of compressible contents with hint Detect are part of the sequences; 12 fixed cases put a lone incompressible cluster at an offset-width boundary between raw clusters; 3 fixed cases hold one content of 9, 17 or 33 MiB (a single cluster larger than the whole queue of a creator with one or two workers), created with 1, 2, 3 and 15 visible cpus.".into()
+        "proptest-generated insertion sequences built from runs of tiny contents (4095 fill a cluster, raw with hint No / compressed with hint Yes) and contents larger than half a cluster (one compressed cluster each), giving 3..60 clusters mixing raw and compressed; each sequence is created 4-6 times with different (perturbation plan, visible CPU count) pairs: plans inject seeded delays inside the public Progress callbacks (main thread at cluster opening, compression workers at handle_cluster, writer thread at handle_cluster_written): none / uniform random {0, yield, 100us, 400us, 2ms} / first compressed cluster slowest / writer slower than all workers / workers finish in reverse order / slow main thread; CPU counts 1..15 through sched_setaffinity (=> 1..14 workers, queue limits 2..28, both shorter and longer than the number of queued clusters). Oracle (metamorphic + model): every run terminates, every address returned resolves to its own bytes in a fresh reader, count and check() are right, the independent decoder finds every cluster inside the file and non-overlapping; addresses are identical across runs. Non-trivial = at least two runs of the case wrote their clusters to the file in different orders (observed through handle_cluster_written); distinct by (sequence shape, number of distinct orders). In half of the cases the first content of every segment / cluster is handed over as a file (InputFile), the others from memory (the writer copies the two kinds through different paths), every second one as a sub-range of its file. Segments of one incompressible content (240..256, 65500..65536 bytes: the stored size of its cluster exceeds the plain size) and of compressible contents with hint Detect are part of the sequences; 12 fixed cases put a lone incompressible cluster at an offset-width boundary between raw clusters; 3 fixed cases hold one content of 9, 17 or 33 MiB (a single cluster larger than the whole queue of a creator with one or two workers), created with 1, 2, 3 and 15 visible cpus; one fixed case whose producer pauses for 2.6 s and 4.6 s in the middle of the creation.".into()
     }
 
     fn assumptions() -> Vec<String> {
@@ -249,6 +261,13 @@ impl Property for C08 {
                 file_sources: mib == 17,
             });
         }
+        // a producer that stops feeding the creator for seconds in the middle of a creation
+        v.push(Case {
+            comp: Comp::Zstd(3),
+            segs: vec![Seg::Tiny { n: 4200, hint: Hint::Yes, seed: 5 }, Seg::Tiny { n: 4200, hint: Hint::No, seed: 6 }, Seg::Tiny { n: 4200, hint: Hint::Yes, seed: 7 }, Seg::Tiny { n: 50, hint: Hint::No, seed: 8 }],
+            plans: vec![Plan { kind: PlanKind::LongPauses, seed: 1, cpus: 4 }, Plan { kind: PlanKind::None, seed: 2, cpus: 2 }],
+            file_sources: false,
+        });
         for comp in [Comp::Zstd(3), Comp::Lz4(3), Comp::Lzma(1)] {
             for len in [250u32, 255, 65530, 65535] {
                 v.push(Case {
